@@ -29,6 +29,8 @@ def _unwrap_check_and_cast(method):
         condition: ArrayLike | None = None,
     ):
         # TODO This can be simplified significantly if we use beartype
+        bijection = unwrap(bijection)  # shapes may be derived from wrapped sub-bijections
+
         def _check_condition(condition):
             if condition is not None:
                 condition = arraylike_to_array(condition, err_name="condition")
@@ -53,7 +55,7 @@ def _unwrap_check_and_cast(method):
                 )
             return x
 
-        return method(unwrap(bijection), _check_x(x), _check_condition(condition))
+        return method(bijection, _check_x(x), _check_condition(condition))
 
     return wrapper
 
